@@ -68,8 +68,14 @@ def vid(v, key=None):
     return -1
 
 
-def make_class(cid, ctor, uris):
+def make_class(cid, ctor, uris, base=None):
     name = "C%d" % cid
+    if base == "app":
+        # a subclass of ApplicationError (constructor inherited: (error, /, *args, **kwargs))
+        C = type(name, (ApplicationError,), {})
+        for u in uris or []:
+            C = wamp.error(u)(C)
+        return C
     if ctor in (None, "plain"):
         ns = {}
     elif ctor in ("kw", "falsy", "withcallee", "readonly"):
@@ -167,6 +173,9 @@ def build_exception(classes, x):
         assert e.kwargs == {}
         if kwargs is not None:
             e.kwargs = kwargs          # kwargs as the instance carries them when raised
+    elif issubclass(classes[x["cls"]], ApplicationError):
+        e = classes[x["cls"]](x["error"], *args)       # the instance carries its OWN error URI
+        e.kwargs = kwargs if kwargs is not None else {}
     else:
         e = Exception.__new__(classes[x["cls"]])
         Exception.__init__(e, *args)
@@ -189,7 +198,7 @@ def turn(n=4):
 
 def run_trial(spec):
     ser = make_serializer(spec["ser"])
-    classes = {int(c): make_class(int(c), d.get("ctor"), d.get("uris")) for c, d in spec["classes"].items()}
+    classes = {int(c): make_class(int(c), d.get("ctor"), d.get("uris"), d.get("base")) for c, d in spec["classes"].items()}
     obs = {}
     # ---- callee
     cw = Wire()
@@ -200,8 +209,33 @@ def run_trial(spec):
     obs["callee_define"] = apply_ops(callee, classes, spec["callee_ops"])
     the_exc = build_exception(classes, spec["exc"])
 
-    def endpoint(*a, **k):
-        raise the_exc
+    gate = {}
+    mode = spec.get("endpoint", "sync")          # sync | async_cleanup
+    interrupt = spec.get("interrupt", "none")    # none | during | after
+    if mode == "sync":
+        def endpoint(*a, **k):
+            raise the_exc
+    elif inp["fw"] == "tx":
+        from twisted.internet.defer import inlineCallbacks, Deferred, CancelledError
+
+        @inlineCallbacks
+        def endpoint(*a, **k):
+            gate["d1"], gate["d2"] = Deferred(), Deferred()
+            try:
+                yield gate["d1"]
+            except CancelledError:
+                yield gate["d2"]                  # asynchronous clean-up after the cancellation
+            raise the_exc
+    else:
+        import asyncio
+
+        async def endpoint(*a, **k):
+            gate["d1"], gate["d2"] = txaio.create_future(), txaio.create_future()
+            try:
+                await gate["d1"]
+            except asyncio.CancelledError:
+                await gate["d2"]
+            raise the_exc
 
     callee.s.register(endpoint, "com.verif.proc")
     reg_req = [m for m in cw.sent if isinstance(m, message.Register)][-1].request
@@ -234,6 +268,18 @@ def run_trial(spec):
     n_sent = len(cw.sent)
     callee.recv_msg(hop(ser, inv)[0])
     turn()
+    if mode != "sync":
+        if interrupt == "during":
+            callee.recv_msg(hop(ser, message.Interrupt(7001))[0])      # dealer cancels the call: txaio.cancel(on_reply)
+            turn()
+            txaio.resolve(gate["d2"], None)                            # the clean-up finishes, then the endpoint raises
+        else:
+            txaio.resolve(gate["d1"], None)
+        turn(6)
+    if interrupt == "after":
+        callee.recv_msg(hop(ser, message.Interrupt(7001))[0])          # INTERRUPT for an invocation that already failed
+        turn()
+    obs["invocations_left"] = sorted(callee.s._invocations)
     errs = [m for m in cw.sent[n_sent:] if isinstance(m, message.Error)]
     obs["callee_raised"] = [e for e in callee.log if e[0] == "raised"]
     if len(errs) != 1:
@@ -271,7 +317,7 @@ def run_trial(spec):
         if kind == "err" and isinstance(v, BaseException):
             kwargs = getattr(v, "kwargs", None)
             obs["delivered"] = {
-                "cls": cid_of(v), "error": getattr(v, "error", None),
+                "cls": cid_of(v), "error": getattr(v, "error", None) if type(v) is ApplicationError else None,
                 "args": [vid(a) for a in v.args],
                 "kwargs": None if not isinstance(kwargs, dict) else [[k, vid(x, k)] for k, x in kwargs.items()],
                 "meta": [[n, None if getattr(v, n) is None else (getattr(v, n) if isinstance(getattr(v, n), int) else -1)]
